@@ -53,13 +53,35 @@ def run_v_units(prop, names):
 
 # ---------------------------------------------------------------- properties
 def c05_v(prop, tier, seed):
-    obs, infos = run_v_units(prop, ["utils_A", "utils_B"])
+    try:
+        obs, infos = run_v_units(prop, ["utils_A", "utils_B"])
+    except Undecided as u:
+        obs, infos = bounded_standin(prop, str(u), [("utils.native", "replay_c05", [])])
     return dict(obs=obs, infos=infos, level="proof", assumptions=list(V_ASSUMPTIONS["utils"]),
                 explanation="C05 clause 1 (overlap scan): Verus proves, for every N, every list length and every string, on the bodies of sylvia/src/utils.rs extracted verbatim (rewrites R1-R3): pass A disjoint(msgs) => neither panic! nor unreachable!() reachable, all indexing in bounds, no overflow, termination; pass B all_sorted(msgs) and normal return => disjoint(msgs).")
 
 
+def bounded_standin(prop, reason, runs):
+    """V could not process the current source (unsupported construct / lost anchor).  A bounded native check of the
+    real function stands in: a concrete failing input is a violation; finding none leaves the property undecided."""
+    from . import replayers
+    for label, bin_name, feats in runs:
+        rc, so, se, wall = replayers._run_native(bin_name, [], features=feats)
+        m = re.search(r"^COUNTEREXAMPLE (.*)$", so, re.M)
+        if m:
+            ob = Ob("%s.B.%s" % (prop, label), "B", "refuted",
+                    "bounded stand-in (NOT a proof): the deductive check was undecided (%s); native enumeration against the real function found a failing input" % reason[:300],
+                    seconds=wall, backend="native enumeration (bounded)", key=m.group(1)[:160],
+                    extra={"playback": {"reproduced": True, "method": "native enumeration against the real code (bin %s)" % bin_name, "input": json.loads(m.group(1)), "features": feats or []}})
+            return [ob], [{"cmd": "replay/%s (bounded stand-in after undecided V: %s)" % (bin_name, reason[:200]), "wall_s": round(wall, 1), "trusted": []}]
+    raise Undecided(reason + " | bounded native stand-in found no failing input within its bound")
+
+
 def c11(prop, tier, seed):
-    obs, infos = run_v_units(prop, ["into_response.staking", "into_response.staking+stargate+cosmwasm_2_0"])
+    try:
+        obs, infos = run_v_units(prop, ["into_response.staking", "into_response.staking+stargate+cosmwasm_2_0"])
+    except Undecided as u:
+        obs, infos = bounded_standin(prop, str(u), [("into_response.native", "replay_c11", []), ("into_response.native.stargate", "replay_c11", ["stargate", "cosmwasm_2_0"])])
     return dict(obs=obs, infos=infos, level="proof", assumptions=list(V_ASSUMPTIONS["into_response"]),
                 explanation="C11 (conversion functions): Verus proves on the bodies of IntoMsg::into_msg and IntoResponse::into_response extracted from sylvia/src/into_response.rs, for all responses (any number/kind of sub-messages, attributes, events, data) and for two feature sets: Ok => every sub-message converted with id/payload/gas_limit/reply_on/content intact and in order, events/attributes/data equal; Err => some message is Custom; no Custom => Ok.")
 
@@ -104,6 +126,10 @@ REGISTRY = {
     "C04": g_prop("C04 on the fixture corpus, as a chain: entry point of kind K takes the K wrapper type (fn-pointer coercion), which is ContractApi's K type; its variants wrap only the parts' K messages; each K message has exactly the K-annotated methods as variants; dispatching any of them bumps only a K handler counter; a K1-only name is rejected by the K2 message type.",
                   uncovered=["the multitest Contract impl (contract/mt.rs) sits behind cw_multi_test"]),
     "C05": c05, "C11": c11,
+    "C10": g_prop("C10: Kani proves on the REAL functions of sylvia/src/types.rs and sylvia/src/builder/instantiate.rs (symbolic scalars, 1-2 byte payloads) that ExecutorBuilder::{new, with_funds, build}, InstantiateBuilder::{new, with_label, with_admin, with_funds, build, build2} and Remote::{new, borrowed, as_ref, executor, update_admin, clear_admin} carry every input to the corresponding output field and leave the others unchanged (label empty when unset); on the fixture corpus the generated Executor methods return a ready builder whose body is the canonical serialisation of the same ExecMsg variant.",
+                  uncovered=["querier helpers (smart query round trip needs a JSON parser)", "funds beyond one coin; addresses beyond 2 bytes"]),
+    "C20": g_prop("C20: Kani proves on the REAL Remote<T> (sylvia/src/types.rs:370-460) for T in {contract, dyn Interface<Error=E>, ()} and both constructors: it serialises (serde data model) as a struct named Remote with exactly one non-skipped member `addr` whose str has the pointer and length of the address (so every byte is the address's, for all addresses up to 6 bytes, without a content loop); a scripted {addr: s} decodes to a handle with as_ref() == s; schema_name() is `Remote` for every T; the three trait impls exist for an unsized T with no impls.",
+                  uncovered=["serde_json: one-field struct -> one-member JSON object and str -> JSON string (dependency, assumed)", "addresses longer than 6 bytes"]),
 }
 
 
